@@ -264,6 +264,9 @@ def _ops(M):
         'tag move': lambda: setattr(M.Tag[1], 'owner', P[2]),
         'tag code conflict': lambda: setattr(M.Tag[1], 'code', 200),
         'delete course': lambda: C[1].delete(),
+        'delete refused after cascading to a created object (mixed)': lambda: (M.Tag(id=9, code=900, owner=P[1]), _arm(), P[1].delete()),
+        'delete a created object (mixed)': lambda: (cur().state.__setitem__('n', P(id=9, name='x', u=77, group=G[2], courses=[C[1]])), _arm(), cur().state['n'].delete()),
+        'delete cascades to created and loaded (mixed)': lambda: (M.Tag(id=9, code=900, owner=P[3]), _arm(), P[3].delete()),
     }
 
 
@@ -341,6 +344,6 @@ CONTRACTS = [
               'pony.orm.core:SetInstance.remove', 'pony.orm.core:SetInstance.clear', 'pony.orm.core:Entity._delete_', 'pony.orm.core:Attribute.update_reverse',
               'pony.orm.core:Set.reverse_add', 'pony.orm.core:Set.reverse_remove'],
              _hc_configs, _hc_case, [('raise_restores_session_snapshot', _hc_raise_restores), ('only_expected_exceptions', _hc_exception_kind)],
-             level='bounded', bound='21 operations on one model (unique, composite keys, 1-1 required, many-to-one, many-to-many); one injected callee failure per path at every call position',
+             level='bounded', bound='32 operations on one model (unique, composite keys, 1-1 required, many-to-one, many-to-many); one injected callee failure per path at every call position',
              allowed_exc=(Injected, core.CacheIndexError, core.ConstraintError, ValueError, TypeError)),
 ]
